@@ -6,4 +6,11 @@ toolchain go1.23.5
 
 require github.com/maruel/panicparse/v2 v2.0.0
 
+require (
+	github.com/mattn/go-colorable v0.1.14 // indirect
+	github.com/mattn/go-isatty v0.0.20 // indirect
+	github.com/mgutz/ansi v0.0.0-20200706080929-d51e80ef957d // indirect
+	golang.org/x/sys v0.31.0 // indirect
+)
+
 replace github.com/maruel/panicparse/v2 => /repo
